@@ -22,7 +22,7 @@ KINDS = {
     "stream": "out.records", "streamgz": "out.records.gz", "json": "out.json", "avro": "out.avro",
     "sqlite": "sqlite://out.db", "csv": "out.csv", "line": "line://out.txt", "text": "text://out.txt",
 }
-EXTRA_KINDS = {"sqlite_b1": ("sqlite", "sqlite://out.db?batch_size=1"), "sqlite_b2": ("sqlite", "sqlite://out.db?batch_size=2"), "sqlite_b3": ("sqlite", "sqlite://out.db?batch_size=3"),
+EXTRA_KINDS = {"stream_short3": ("stream", "short:3:out.records"), "stream_short61": ("stream", "short:61:out.records"), "sqlite_b1": ("sqlite", "sqlite://out.db?batch_size=1"), "sqlite_b2": ("sqlite", "sqlite://out.db?batch_size=2"), "sqlite_b3": ("sqlite", "sqlite://out.db?batch_size=3"),
                "streambz2": ("streamgz", "out.records.bz2"), "streamlz4": ("streamgz", "out.records.lz4"), "streamzst": ("streamgz", "out.records.zst"),
                "jsonl": ("json", "out.jsonl")}     # (compressed JSON lines are not supported by the library: every write raises)
 
@@ -132,13 +132,45 @@ def observe_after(kind, url, tmp, nwritten):
 BAD_TEXT = {"stream": "x\ud800", "streamgz": "x\ud800", "avro": "x\udcff", "sqlite": "x\ud800", "csv": "x\ud800"}
 
 
+class ShortFile(io.RawIOBase):
+    """a raw, unbuffered binary file that accepts at most k bytes per call and says so"""
+
+    def __init__(self, path, k):
+        super().__init__()
+        self._f, self._k = open(path, "wb", buffering=0), k
+
+    def writable(self):
+        return True
+
+    def write(self, b):
+        return self._f.write(bytes(b)[: self._k])
+
+    def flush(self):
+        if not self._f.closed:
+            self._f.flush()
+
+    def close(self):
+        if not self._f.closed:
+            self._f.close()
+        super().close()
+
+
 def run_writer_history(kind, url, ops, tmp, desc):
     from flow.record import RecordWriter
 
     for f in glob.glob(os.path.join(tmp, "out*")):
         os.remove(f)
     full = url.replace("://", "://" + tmp + "/") if "://" in url else os.path.join(tmp, url)
-    w = RecordWriter(full)
+    if url.startswith("short:"):
+        # the stream writer on a RAW file object that takes at most k bytes per write() (a pipe, a socket, a full disk that
+        # frees up): `short:<k>:<file name>`
+        from flow.record.adapter.stream import StreamWriter
+
+        _, k, name = url.split(":", 2)
+        url = name
+        w = StreamWriter(ShortFile(os.path.join(tmp, name), int(k)))
+    else:
+        w = RecordWriter(full)
     tr = [{"kind": kind, "url": url}]
     n = 0
     closed = False
@@ -151,6 +183,13 @@ def run_writer_history(kind, url, ops, tmp, desc):
             elif op == "badwrite":
                 ev["op"] = "write"          # a write like any other: accepted (then it counts) or refused with an exception
                 w.write(desc(n + 1, BAD_TEXT[kind], _generated=gen.GEN))
+                n += 1
+            elif op == "badtypewrite":
+                # a record the adapter refuses for its TYPE (a field type without a mapping): refused before anything is produced
+                ev["op"] = "write"
+                from flow.record import RecordDescriptor as _RD
+
+                w.write(_RD("w/unmapped", [("varint", "n"), ("path", "p"), ("string[]", "l")])(n + 1, "/x", ["a"], _generated=gen.GEN))
                 n += 1
             elif op == "flush":
                 w.flush()
@@ -226,13 +265,15 @@ def writers_part(ctx, thorough):
     if thorough:
         kinds += [(name, base, u) for name, (base, u) in EXTRA_KINDS.items()]
     else:
-        kinds += [(name, base, u) for name, (base, u) in EXTRA_KINDS.items() if name in ("streamzst", "jsonl", "sqlite_b1", "sqlite_b2", "sqlite_b3")]
+        kinds += [(name, base, u) for name, (base, u) in EXTRA_KINDS.items() if name in ("streamzst", "jsonl", "sqlite_b1", "sqlite_b2", "sqlite_b3", "stream_short3", "stream_short61")]
     for name, base, url in kinds:
         hl = hs if name in KINDS or thorough or name.startswith("sqlite_b") else [h for h in hs if len(h) <= 3]
         if name.startswith("sqlite_b") and not thorough:
             hl = histories(5)
         if base in BAD_TEXT:
             hl = hl + with_badwrites(hs, 3 if not thorough else 4)
+        if base == "avro":
+            hl = hl + [["badtypewrite" if op == "badwrite" else op for op in h] for h in with_badwrites(hs, 3 if not thorough else 4)] + [["badtypewrite", "close"], ["badtypewrite", "exit"], ["badtypewrite", "flush", "close"]]
         # ... and every history that leaves a with-block, left through an exception instead
         hl = hl + [["exitexc" if (op == "exit" and i == h.index("exit")) else op for i, op in enumerate(h)] for h in hl if "exit" in h and len(h) <= (4 if not thorough else 5)]
         for h in hl:
